@@ -133,6 +133,12 @@ package eni
 //@ # ---- only what the cloud confirmed as unassigned leaves the pool's tracking ----
 //@ guard call Set.Delete#1 in factoryDisposeWorker: c07u4ok && arg0 == c07u4
 //@ guard call Set.Delete#2 in factoryDisposeWorker: c07u6ok && arg0 == c07u6
+//@ # ... and nothing else forgets an address: shrinking the pool (Local.Dispose) and the periodic sync only MARK entries
+//@ # (deleting / invalid); an entry that is merely not valid may still be assigned on the cloud side
+//@ guard? call delete in Local.Dispose: false
+//@ guard? call Set.Delete in Local.Dispose: false
+//@ guard? call delete in syncIPLocked: false
+//@ guard? call Set.Delete in syncIPLocked: false
 
 //@ for C01 C07
 //@ # ---- factoryAllocWorker: what the cloud handed over together with an error is kept for hand-back, never dropped — and
@@ -166,6 +172,13 @@ package eni
 //@ # ---- restart: a stored binding is re-applied to the entry of its own address, in the set of its own family ----
 //@ guard call IP.Allocate#2 in load: recv == l.ipv4[ip] && arg0 == podID
 //@ guard call IP.Allocate#3 in load: recv == l.ipv6[ip] && arg0 == podID
+
+//@ # every pool of the node is started from the same record list (Manager.Run hands one slice to all of them): a pool
+//@ # loads from the full list and leaves it as it found it for the next pool
+//@ guard call Local.load in Local.Run: arg0 == podResources
+//@ func Local.Run
+//@   requires l != nil
+//@   preserves elem daemon.PodResources
 
 //@ for C15
 
